@@ -254,8 +254,10 @@ class MetadataGenerator:
             else:
                 other_types.append(item)
 
-        if int in other_types and float in other_types:
-            other_types.remove(int)
+        if float in other_types:
+            # int can be listed more than once (directly and taken out of an Optional member)
+            while int in other_types:
+                other_types.remove(int)
 
         if types_to_merge:
             other_types.append(self.merge_field_sets(types_to_merge))
